@@ -59,22 +59,39 @@ func (p *pp) SafeBytes(r i.SafeBytes) {
 }
 
 func (p *pp) Print(args ...interface{}) {
+	if p.override == overrideUnsafe {
+		// Under Unsafe(), everything must be enclosed, including the
+		// spacing and the operands the caller declares safe: format
+		// separately and emit the text as unsafe.
+		p.UnsafeString(Sprint(args...).StripMarkers())
+		return
+	}
 	defer p.buf.SetMode(p.buf.GetMode())
 	np := newPrinter()
 	np.buf = p.buf
+	// Under Safe(), the nested printer must not enclose anything either.
+	np.override = p.override
 	np.doPrint(args)
 	p.buf = np.buf
 	np.buf = buffer{}
+	np.override = noOverride
 	np.free()
 }
 
 func (p *pp) Printf(format string, arg ...interface{}) {
+	if p.override == overrideUnsafe {
+		// See Print.
+		p.UnsafeString(Sprintf(format, arg...).StripMarkers())
+		return
+	}
 	defer p.buf.SetMode(p.buf.GetMode())
 	np := newPrinter()
 	np.buf = p.buf
+	np.override = p.override
 	np.doPrintf(format, arg)
 	p.buf = np.buf
 	np.buf = buffer{}
+	np.override = noOverride
 	np.free()
 }
 
